@@ -396,7 +396,7 @@ func zzRunC08(r *sim.Run) {
 		nev := t.Choose("nevents", 5)
 		for i := 0; i < nev; i++ {
 			evs = append(evs, ev{time.Duration(200+t.Choose("ev.at", 40000)) * time.Millisecond,
-				[]string{"tip-better", "tip-earlier", "tip-higher-quality", "tip-worse", "tip-later", "tip-lower-quality", "tip-equal", "reject-on", "reject-off", "sync-lost", "sync-back"}[t.Choose("ev.kind", 11)]})
+				[]string{"tip-better", "tip-earlier", "tip-higher-quality", "tip-worse", "tip-later", "tip-lower-quality", "tip-equal", "reject-on", "reject-off", "sync-lost", "sync-back", "reorg", "restart"}[t.Choose("ev.kind", 13)]})
 		}
 		sort.Slice(evs, func(i, j int) bool { return evs[i].at < evs[j].at })
 		runFor := time.Duration(8+t.Choose("runfor", 50)) * time.Second
@@ -451,6 +451,31 @@ func zzRunC08(r *sim.Run) {
 						case c <- n:
 						default:
 						}
+					}
+				case "reorg":
+					// the best chain switches to a heavier sibling of the current tip's parent: the
+					// height of the current tip is offered for mining once more
+					cur := w.best
+					if cur.Height < 2 {
+						break
+					}
+					nh := w.newHash()
+					w.best = &blockchain.BlockNode{Hash: &nh, Height: cur.Height - 1, Timestamp: cur.Timestamp.Add(-3 * time.Second), Quality: new(big.Int).Set(cur.Quality),
+						CapSum: new(big.Int).Add(cur.CapSum, big.NewInt(1))}
+					r.Event("t=%s reorganisation: best tip now at height %d (was %d)", zzClock(), w.best.Height, cur.Height)
+				case "restart":
+					r.Event("t=%s Stop() / Start()", zzClock())
+					t0 := time.Now()
+					m.Stop()
+					if d := time.Since(t0); d > 30*time.Second {
+						r.Fail("C08/stop-slow/stop", "miner.Stop() took %v of simulated time", d)
+					}
+					if err := m.Start(); err != nil {
+						// (a service that cannot be started again is not what this check is about)
+						r.Event("restart refused: %v", err)
+						stopReturned = true
+						drain = false
+						return
 					}
 				case "reject-on":
 					w.reject = true
